@@ -59,9 +59,9 @@ type faultCase struct {
 	// has copied PeerAt-1 bytes of its second pass, and the other writer then carries on. Only halts are injected here
 	// ("the process stops"): a Put that *fails* truncates the output it shares with the running writer, see DESIGN.
 	PeerAt int `json:"peer_at,omitempty"`
-	K         int      `json:"k"`    // operation index of the file-operation fault (-1: none)
-	Kind      int      `json:"kind"` // fos.Kind
-	Cut       int      `json:"cut"`
+	K      int `json:"k"`    // operation index of the file-operation fault (-1: none)
+	Kind   int `json:"kind"` // fos.Kind
+	Cut    int `json:"cut"`
 }
 
 const (
